@@ -35,17 +35,25 @@ static inline void upool_release(struct upool *upool)
 {
     if (upool != NULL) urefcount_release(upool->refcount);
 }
+/* VERIF_POOL_NO_MGR_REF: the pool does not take a reference on its manager for every object.
+ * Used by harnesses whose subject is not object lifetime (C01 is): with merged symbolic states
+ * CBMC cannot see that the manager's count stays > 0 and would explore the manager's destructor
+ * (recursively) at every free.  Native replays always use the real upool.h. */
 static inline void *upool_alloc_internal(struct upool *upool)
 {
     void *obj = upool->alloc_cb(upool);
+#ifndef VERIF_POOL_NO_MGR_REF
     if (obj != NULL) upool_use(upool);
+#endif
     return obj;
 }
 #define upool_alloc(upool, type) (type)upool_alloc_internal(upool)
 static inline void upool_free(struct upool *upool, void *obj)
 {
     upool->free_cb(upool, obj);
+#ifndef VERIF_POOL_NO_MGR_REF
     upool_release(upool);
+#endif
 }
 static inline void upool_vacuum(struct upool *upool) { (void)upool; }
 static inline void upool_clean(struct upool *upool) { (void)upool; }
